@@ -48,6 +48,39 @@ let parse_bops s =
 
 let parse_frames s = if s = "_" then [] else List.map bytes_of_hex (split_on ',' s)
 
+(* BAI index text (see harness/src/shared/c14_deep4.rs): refs '/', ref = bins|meta|intervals *)
+let parse_pair c = match split_on '-' c with
+  | [a; b] -> (n_of_dec a, n_of_dec b)
+  | _ -> failwith "pair"
+let parse_bai_ref r =
+  match split_on '|' r with
+  | [bins; meta; iv] ->
+      let bins = if bins = "_" then [] else
+        List.map (fun b -> match split_on ':' b with
+          | [id; cs] -> (n_of_dec id, if cs = "_" then [] else List.map parse_pair (split_on '+' cs))
+          | _ -> failwith "bin") (split_on ',' bins) in
+      let meta = if meta = "_" then None else
+        (match List.map n_of_dec (split_on '-' meta) with
+         | [a; b; c; d] -> Some { m_beg = a; m_end = b; m_mapped = c; m_unmapped = d }
+         | _ -> failwith "meta") in
+      let iv = if iv = "_" then [] else List.map n_of_dec (split_on ',' iv) in
+      { br_bins = bins; br_meta = meta; br_intervals = iv }
+  | _ -> failwith "ref"
+
+(* async poll script: P (Pending), A<k> (accept), E<code> (error) *)
+let parse_ascript s =
+  if s = "_" then [] else
+  List.map (fun t ->
+    let num () = int_of_string (String.sub t 1 (String.length t - 1)) in
+    match t.[0] with
+    | 'P' -> APending
+    | 'A' -> AAccept (nat_of_int (num ()))
+    | 'E' -> AErr (n_of_int (num ()))
+    | _ -> failwith "ascript") (split_on ',' s)
+
+let fmt_asink rs (s : asink) =
+  Printf.sprintf "%s|calls=%d|%s" rs (int_of_nat s.as_polls) (fmt_bytes s.as_bytes)
+
 let handle kind a =
   match kind with
   | "wa" ->
@@ -75,6 +108,43 @@ let handle kind a =
                { sbytes = []; sscript = parse_script a.(1); scalls = O } with
        | Some (r, s) -> Some (fmt_sink (fmt_res r) s)
        | None -> Some "stuck")
+  | "mta" ->
+      (* mta pool script ops seed frames plan: the multithreaded writer seen from the application
+         thread; plan = one 0/1 per op (1 = pool and writer thread run to quiescence before the op
+         returns); obs = the result of every API call (ops, then finish()), calls, sink bytes *)
+      let p = nat_of_int (int_of_string a.(0)) in
+      let mops = List.map (fun o -> match o with
+        | BWriteAll n -> MWriteAll n
+        | BFlush -> MFlush
+        | _ -> failwith "mop") (parse_bops a.(2)) in
+      let plan = if a.(5) = "_" then [] else
+        List.init (String.length a.(5)) (fun i -> a.(5).[i] = '1') in
+      (match mta_model p (nat_of_int 65495) (parse_frames a.(4)) (mta_pol plan) mops
+               { sbytes = []; sscript = parse_script a.(1); scalls = O } with
+       | Some (rs, s) -> Some (fmt_sink (fmt_results rs) s)
+       | None -> Some "stuck")
+  | "awa" ->
+      let (r, s) = as_write_all (bytes_of_hex a.(1)) { as_bytes = []; as_script = parse_ascript a.(0); as_polls = O } in
+      Some (fmt_asink (fmt_res r) s)
+  | "afq" ->
+      let recs = if a.(1) = "_" then [] else
+        List.map (fun r -> match List.map bytes_of_hex (split_on ':' r) with
+          | [n; d; sq; q] -> { fq_name = n; fq_desc = d; fq_seq = sq; fq_qual = q }
+          | _ -> failwith "fq") (split_on ',' a.(1)) in
+      let (rs, s) = afq_run recs { as_bytes = []; as_script = parse_ascript a.(0); as_polls = O } in
+      Some (fmt_asink (fmt_results rs) s)
+  | "ixc" ->
+      (* ixc bai script unplaced refs | ixc gzi script entries: write_index as the chain of write_all
+         calls the model derives from the index (bytes = C17's layout models) *)
+      let s0 = { sbytes = []; sscript = parse_script a.(1); scalls = O } in
+      let (r, s) =
+        if a.(0) = "bai" then
+          bai_write_index
+            { bi_refs = (if a.(3) = "_" then [] else List.map parse_bai_ref (split_on '/' a.(3)));
+              bi_unplaced = (if a.(2) = "_" then None else Some (n_of_dec a.(2))) } s0
+        else
+          gzi_write_index (if a.(2) = "_" then [] else List.map parse_pair (split_on ',' a.(2))) s0 in
+      Some (fmt_sink (fmt_res r) s)
   | "fob" ->
       (* fob fmt ending seed script ops frames: a format writer over the BGZF writer; ops = the
          BGZF-level calls of each explicit operation (';' between operations, "-" = no call) *)
